@@ -240,5 +240,12 @@ def routes(rng, n, widths=None, depth=3):
                         old = rng.choice(leaves)
                         yield "setop-replace", claripy.replace(u, old, claripy.BVS("rs", old.length, explicit_name=True)), None
                         yield "setop-replace-const", claripy.replace(u, old, claripy.BVV(1, old.length)), None
+                    # a set operation over constants only, one of which is then replaced by a variable
+                    k1, k2 = claripy.BVV(rng.getrandbits(a.length), a.length), claripy.BVV(rng.getrandbits(a.length), a.length)
+                    if k1 is not k2:
+                        uc = rng.choice([claripy.union, claripy.intersection, claripy.widen])(k1, k2)
+                        yield "setop", uc, None
+                        yield "setop-replace", claripy.replace(uc, k1, claripy.BVS("rs", a.length, explicit_name=True)), None
+                        yield "setop-replace", claripy.replace_dict(uc, {k2.hash(): a}), None
         except claripy.errors.ClaripyError:
             continue
